@@ -145,3 +145,199 @@ theorem dense_refines_spec (dr : RegData R) (ds : SingData R) (T S : SpaceData R
     singular_refines ds T S pairs suppT suppS hT hS hmemT hmemS, galerkin_add]
 
 end BemppVerif.Lemmas
+
+namespace BemppVerif.Lemmas
+open BemppVerif.Model.Asm
+
+variable {R : Type} [CommRing R]
+
+/-! ### Potentials -/
+
+/-- the potential is linear in the coefficient vector -/
+theorem potential_add (d : PotData R) (n : Nat) (supp : List Nat) (c1 c2 : Nat → R) (x : Nat) :
+    potential d n supp (fun a => c1 a + c2 a) x = potential d n supp c1 x + potential d n supp c2 x := by
+  unfold potential rsum
+  rw [← lsum_map_add]
+  apply lsum_map_congr; intro σ _
+  rw [← lsum_map_add]
+  apply lsum_map_congr; intro q _
+  rw [← mul_add, ← lsum_map_add]
+  congr 1
+  apply lsum_map_congr; intro j _
+  ring
+
+theorem potential_smul (d : PotData R) (n : Nat) (supp : List Nat) (a : R) (c : Nat → R) (x : Nat) :
+    potential d n supp (fun k => a * c k) x = a * potential d n supp c x := by
+  unfold potential rsum
+  rw [← lsum_map_mul_left]
+  apply lsum_map_congr; intro σ _
+  rw [← lsum_map_mul_left]
+  apply lsum_map_congr; intro q _
+  have h : lsum ((List.range n).map fun j => d.ie σ * d.w q * d.phi j q * (a * c (n * σ + j)))
+      = a * lsum ((List.range n).map fun j => d.ie σ * d.w q * d.phi j q * c (n * σ + j)) := by
+    rw [← lsum_map_mul_left]; apply lsum_map_congr; intro j _; ring
+  rw [h]; ring
+
+/-- potentials of spaces on disjoint pieces of the support add up (segment-wise assembly) -/
+theorem potential_support_append (d : PotData R) (n : Nat) (s1 s2 : List Nat) (c : Nat → R) (x : Nat) :
+    potential d n (s1 ++ s2) c x = potential d n s1 c x + potential d n s2 c x := by
+  unfold potential
+  rw [List.map_append, lsum_append]
+
+/-- **potential = closed-form kernel sum**: the value at `x` is
+`Σ_{σ∈supp} Σ_q K(x; σ, q) · w_q · ie_σ · (Σ_j φ_j(q) · coef[nshape·σ + j])`, i.e. kernel × weight × integration element ×
+the density evaluated at the quadrature point. -/
+theorem potential_is_kernel_sum (d : PotData R) (n : Nat) (supp : List Nat) (c : Nat → R) (x : Nat) :
+    potential d n supp c x =
+      lsum (supp.map fun σ => rsum d.nq fun q =>
+        d.K x σ q * (d.w q * d.ie σ * rsum n fun j => d.phi j q * c (n * σ + j))) := by
+  unfold potential rsum
+  apply lsum_map_congr; intro σ _
+  apply lsum_map_congr; intro q _
+  congr 1
+  rw [← lsum_map_mul_left]
+  apply lsum_map_congr; intro j _
+  ring
+
+/-! ### Boundary operator between two grids = Galerkin-tested potential (regular part, no skipped pairs) -/
+
+/-- If no pair is skipped (`adjacent = false`, the case of two different grids), the local regular integral is the
+test function integrated against the potential of the trial shape function:
+`localReg τ σ i j = Σ_p w_p ie_τ φ_i(p) · Pot_{σ,j}(x_{τ,p})` where `Pot_{σ,j}` is the potential (model) of the unit
+coefficient vector `e_{nshape·σ+j}` supported on `[σ]`. -/
+theorem localReg_eq_tested_potential (d : RegData R) (nS : Nat) (τ σ i j : Nat) (hj : j < nS)
+    (hadj : d.adjacent τ σ = false) :
+    localReg d τ σ i j =
+      rsum d.nq fun p => d.w p * d.ieT τ * d.phiT i p *
+        potential ⟨d.nq, d.w, d.ieS, d.phiS, fun x σ' q => d.K τ x σ' q⟩ nS [σ]
+          (fun a => if a = nS * σ + j then 1 else 0) p := by
+  unfold localReg potential rsum
+  simp only [hadj, Bool.false_eq_true, if_false, List.map_cons, List.map_nil, lsum_cons, lsum_nil, add_zero]
+  apply lsum_map_congr; intro p _
+  rw [← lsum_map_mul_left]
+  apply lsum_map_congr; intro q _
+  -- the inner sum over the shape functions of the unit vector selects `j`
+  have hsel : lsum ((List.range nS).map fun j' => d.ieS σ * d.w q * d.phiS j' q *
+      (if nS * σ + j' = nS * σ + j then (1 : R) else 0)) = d.ieS σ * d.w q * d.phiS j q := by
+    have h1 : ∀ j' ∈ List.range nS, d.ieS σ * d.w q * d.phiS j' q * (if nS * σ + j' = nS * σ + j then (1 : R) else 0)
+        = if j' = j then d.ieS σ * d.w q * d.phiS j' q else 0 := by
+      intro j' _
+      by_cases h : j' = j
+      · simp [h]
+      · have : ¬ (nS * σ + j' = nS * σ + j) := by omega
+        simp [h, this]
+    rw [lsum_map_congr _ _ _ h1, lsum_map_ite_eq _ List.nodup_range j]
+    simp [hj]
+  rw [hsel]
+  ring
+
+/-! ### Congruence (operators on a subspace) -/
+
+/-- **Congruence**: the Galerkin matrix of spaces `(T, S)` is `Σ_{(τ,i)} Σ_{(σ,j)} Tmap[(τ,i), r] · I τ σ i j · Smap[(σ,j), c]`
+with `Tmap[(τ,i), r] = mult_T τ i · [l2g_T τ i = r]` — the element-wise (discontinuous) matrix `I` conjugated by the
+spaces' coefficient maps. -/
+theorem galerkin_congruence (T S : SpaceData R) (suppT suppS : List Nat) (I : Nat → Nat → Nat → Nat → R) (r c : Nat) :
+    galerkin T S suppT suppS I r c =
+      lsum (suppT.map fun τ => rsum T.nshape fun i =>
+        (if T.l2g τ i = r then T.mult τ i else 0) *
+          lsum (suppS.map fun σ => rsum S.nshape fun j =>
+            I τ σ i j * (if S.l2g σ j = c then S.mult σ j else 0))) := by
+  unfold galerkin rsum
+  apply lsum_map_congr; intro τ _
+  rw [lsum_comm]
+  apply lsum_map_congr; intro i _
+  rw [← lsum_map_mul_left]
+  apply lsum_map_congr; intro σ _
+  rw [← lsum_map_mul_left]
+  apply lsum_map_congr; intro j _
+  by_cases h1 : T.l2g τ i = r <;> by_cases h2 : S.l2g σ j = c <;> simp [h1, h2] <;> ring
+
+/-- **Sub-blocks**: on the element-wise space (`l2g e i = nshape·e + i`, multipliers 1) the entry
+`(nT·τ + i, nS·σ + j)` is exactly the local integral `I τ σ i j`, for support elements of duplicate-free supports. -/
+theorem galerkin_dp_entry (nT nS : Nat) (suppT suppS : List Nat) (hT : suppT.Nodup) (hS : suppS.Nodup)
+    (I : Nat → Nat → Nat → Nat → R) (τ σ i j : Nat) (hτ : τ ∈ suppT) (hσ : σ ∈ suppS) (hi : i < nT) (hj : j < nS) :
+    galerkin (dpSpace nT) (dpSpace nS) suppT suppS I (nT * τ + i) (nS * σ + j) = I τ σ i j := by
+  unfold galerkin rsum dpSpace
+  simp only [mul_one]
+  have key : ∀ τ' ∈ suppT, lsum (suppS.map fun σ' => lsum ((List.range nT).map fun i' =>
+      lsum ((List.range nS).map fun j' =>
+        if nT * τ' + i' = nT * τ + i ∧ nS * σ' + j' = nS * σ + j then I τ' σ' i' j' else 0)))
+      = if τ' = τ then I τ σ i j else 0 := by
+    intro τ' _
+    by_cases hτ' : τ' = τ
+    · subst hτ'
+      simp only [if_true]
+      have inner : ∀ σ' ∈ suppS, lsum ((List.range nT).map fun i' => lsum ((List.range nS).map fun j' =>
+          if nT * τ' + i' = nT * τ' + i ∧ nS * σ' + j' = nS * σ + j then I τ' σ' i' j' else 0))
+          = if σ' = σ then I τ' σ i j else 0 := by
+        intro σ' _
+        by_cases hσ' : σ' = σ
+        · subst hσ'
+          simp only [if_true]
+          have h1 : ∀ i' ∈ List.range nT, lsum ((List.range nS).map fun j' =>
+              if nT * τ' + i' = nT * τ' + i ∧ nS * σ' + j' = nS * σ' + j then I τ' σ' i' j' else 0)
+              = if i' = i then I τ' σ' i j else 0 := by
+            intro i' _
+            by_cases hi' : i' = i
+            · subst hi'
+              have h2 : ∀ j' ∈ List.range nS,
+                  (if nT * τ' + i' = nT * τ' + i' ∧ nS * σ' + j' = nS * σ' + j then I τ' σ' i' j' else 0)
+                  = if j' = j then I τ' σ' i' j' else 0 := by
+                intro j' _
+                by_cases hj' : j' = j
+                · simp [hj']
+                · have : ¬ (nS * σ' + j' = nS * σ' + j) := by omega
+                  simp [hj', this]
+              rw [lsum_map_congr _ _ _ h2, lsum_map_ite_eq _ List.nodup_range j]
+              simp [hj]
+            · have : ¬ (nT * τ' + i' = nT * τ' + i) := by omega
+              simp [hi', this, lsum_replicate_zero]
+          rw [lsum_map_congr _ _ _ h1, lsum_map_ite_eq _ List.nodup_range i]
+          simp [hi]
+        · -- different trial element: every term vanishes because j, j' < nS
+          simp only [hσ', if_false]
+          have hz : ∀ i' ∈ List.range nT, lsum ((List.range nS).map fun j' =>
+              if nT * τ' + i' = nT * τ' + i ∧ nS * σ' + j' = nS * σ + j then I τ' σ' i' j' else 0) = 0 := by
+            intro i' _
+            have hz2 : ∀ j' ∈ List.range nS,
+                (if nT * τ' + i' = nT * τ' + i ∧ nS * σ' + j' = nS * σ + j then I τ' σ' i' j' else (0 : R)) = 0 := by
+              intro j' hj'
+              have hj'' : j' < nS := List.mem_range.mp hj'
+              have : ¬ (nS * σ' + j' = nS * σ + j) := by
+                intro e
+                rcases Nat.lt_or_gt_of_ne hσ' with h | h
+                · have : nS * σ' + nS ≤ nS * σ := by
+                    have := Nat.mul_le_mul_left nS (Nat.succ_le_of_lt h); simpa [Nat.mul_succ] using this
+                  omega
+                · have : nS * σ + nS ≤ nS * σ' := by
+                    have := Nat.mul_le_mul_left nS (Nat.succ_le_of_lt h); simpa [Nat.mul_succ] using this
+                  omega
+              simp [this]
+            rw [lsum_map_congr _ _ _ hz2, lsum_map_zero]
+          rw [lsum_map_congr _ _ _ hz, lsum_map_zero]
+      rw [lsum_map_congr _ _ _ inner, lsum_map_ite_eq _ hS σ]
+      simp [hσ]
+    · simp only [hτ', if_false]
+      have hz : ∀ σ' ∈ suppS, lsum ((List.range nT).map fun i' => lsum ((List.range nS).map fun j' =>
+          if nT * τ' + i' = nT * τ + i ∧ nS * σ' + j' = nS * σ + j then I τ' σ' i' j' else (0 : R))) = 0 := by
+        intro σ' _
+        have hz1 : ∀ i' ∈ List.range nT, lsum ((List.range nS).map fun j' =>
+            if nT * τ' + i' = nT * τ + i ∧ nS * σ' + j' = nS * σ + j then I τ' σ' i' j' else (0 : R)) = 0 := by
+          intro i' hi'
+          have hi'' : i' < nT := List.mem_range.mp hi'
+          have : ¬ (nT * τ' + i' = nT * τ + i) := by
+            intro e
+            rcases Nat.lt_or_gt_of_ne hτ' with h | h
+            · have : nT * τ' + nT ≤ nT * τ := by
+                have := Nat.mul_le_mul_left nT (Nat.succ_le_of_lt h); simpa [Nat.mul_succ] using this
+              omega
+            · have : nT * τ + nT ≤ nT * τ' := by
+                have := Nat.mul_le_mul_left nT (Nat.succ_le_of_lt h); simpa [Nat.mul_succ] using this
+              omega
+          simp [this, lsum_replicate_zero]
+        rw [lsum_map_congr _ _ _ hz1, lsum_map_zero]
+      rw [lsum_map_congr _ _ _ hz, lsum_map_zero]
+  rw [lsum_map_congr _ _ _ key, lsum_map_ite_eq _ hT τ]
+  simp [hτ]
+
+end BemppVerif.Lemmas
